@@ -10,6 +10,7 @@ import (
 	"runtime"
 	"sync"
 	"sync/atomic"
+	"testing"
 	"time"
 
 	"github.com/containerd/nri/pkg/net/multiplex"
@@ -476,4 +477,141 @@ func runMixedRounds(c C10Case, p *muxPair, alloc *idAllocator) (string, bool) {
 		}
 	}
 	return "", false
+}
+
+// ---------------------------------------------------------------------------------------
+// backlog bursts: the peer writes a burst of small frames to a connection nobody reads yet; the
+// burst approaches the configured queue length of the receiving mux from below. The reader
+// starts late (after a barrier: everything has been dispatched) and must get every frame.
+
+// C10Burst: Fill is how many frames relative to the queue length of mux Side: full (= qlen),
+// full-1, half. Size is the payload size of the frames (small).
+type C10Burst struct {
+	Side int    `json:"side"`
+	Fill string `json:"fill"`
+	Size int    `json:"size"`
+}
+
+func genBursts(t *rapid.T) []C10Burst {
+	if rapid.IntRange(0, 2).Draw(t, "bursts") == 0 {
+		return nil
+	}
+	return rapid.SliceOfN(rapid.Custom(func(t *rapid.T) C10Burst {
+		return C10Burst{Side: rapid.IntRange(0, 1).Draw(t, "bside"),
+			Fill: rapid.SampledFrom([]string{"full", "full", "full-1", "half"}).Draw(t, "bfill"),
+			Size: rapid.SampledFrom([]int{0, 1, 4, 16, 17}).Draw(t, "bsize")}
+	}), 1, 3).Draw(t, "bursts")
+}
+
+func burstFrames(qlen int, fill string) int {
+	switch fill {
+	case "full-1":
+		return max(qlen-1, 1)
+	case "half":
+		return max(qlen/2, 1)
+	}
+	return qlen
+}
+
+func runBursts(c C10Case, p *muxPair, alloc *idAllocator) (string, bool) {
+	bp := getBuf()
+	defer putBuf(bp)
+	buf := *bp
+	for bi, b := range c.Bursts {
+		S := b.Side & 1
+		P := 1 - S
+		qlen := c.qlenOf(S)
+		n := burstFrames(qlen, b.Fill)
+		id := alloc.fresh()
+		where := fmt.Sprintf("burst %d (id=%d, %d frames towards mux %d whose queue length is %d)", bi, id, n, S, qlen)
+		h, err := p.m[S].Open(multiplex.ConnID(id))
+		if err != nil || h == nil {
+			return fmt.Sprintf("%s: Open returned (%v, %v)", where, h, err), false
+		}
+		peer, err := p.m[P].Open(multiplex.ConnID(id))
+		if err != nil || peer == nil {
+			return fmt.Sprintf("%s: Open on the peer returned (%v, %v)", where, peer, err), false
+		}
+		// the writes may have to wait for the receiving mux to take the bytes off the socket:
+		// run them beside a watchdog
+		werr := make(chan string, 1)
+		go func() {
+			for i := 0; i < n; i++ {
+				d := payloadDesc{Conn: 0xfffd, Dir: P, Writer: 6, Seq: i, Len: max(b.Size, 0) % 64, ID: id}
+				fb := make([]byte, d.Len)
+				d.fill(fb)
+				if k, err := peer.Write(fb); err != nil || k != len(fb) {
+					werr <- fmt.Sprintf("%s: Write of frame %d returned (%d, %v) although the backlog never exceeds the configured queue length", where, i, k, err)
+					return
+				}
+			}
+			if _, err := p.conns[P][0].Write([]byte{0xA7}); err != nil {
+				werr <- fmt.Sprintf("%s: barrier Write returned %v", where, err)
+				return
+			}
+			werr <- ""
+		}()
+		select {
+		case bad := <-werr:
+			if bad != "" {
+				return bad, false
+			}
+		case <-time.After(c10StallAfter):
+			return fmt.Sprintf("%s: the Writes of the burst did not return within %v", where, c10StallAfter), true
+		}
+		r, ok := timedRead(p.conns[S][0], buf)
+		if !ok {
+			return fmt.Sprintf("%s: incomplete: the barrier frame written to id=%d was not delivered within %v", where, c.IDs[0], c10StallAfter), true
+		}
+		if r.err != nil || r.n != 1 || buf[0] != 0xA7 {
+			return fmt.Sprintf("%s: barrier read on id=%d returned (%d bytes, %v) instead of the 1 byte written: the multiplexer failed although no backlog exceeded the configured queue length", where, c.IDs[0], r.n, r.err), false
+		}
+		// the late reader
+		for i := 0; i < n; i++ {
+			d := payloadDesc{Conn: 0xfffd, Dir: P, Writer: 6, Seq: i, Len: max(b.Size, 0) % 64, ID: id}
+			r, ok := timedRead(h, buf)
+			if !ok {
+				return fmt.Sprintf("%s: incomplete: frame %d of the burst was dropped (the barrier frame written after it was delivered; Read blocked for %v)", where, i, c10StallAfter), false
+			}
+			if r.err != nil {
+				return fmt.Sprintf("%s: Read returned %v after %d frames of the burst although the backlog (%d unread frames) never exceeded the configured queue length %d", where, r.err, i, n, qlen), false
+			}
+			if r.n != d.Len || d.match(buf[:r.n], 0) >= 0 {
+				return fmt.Sprintf("%s: read %d returned %d bytes that are not frame %d of the burst (%d bytes)", where, i, r.n, i, d.Len), false
+			}
+		}
+	}
+	return "", false
+}
+
+// TestExh_C10: directed sweep of the queue length (run in shard 0 only): for each length a
+// burst of exactly qlen and of qlen-1 unread frames towards either end is delivered completely.
+func TestExh_C10(t *testing.T) {
+	rec := ev.Get("C10")
+	defer rec.Flush()
+	n := 0
+	for _, q := range []int{1, 2, 3, 255, 256, 257, 300, 512, 1024, 4096} {
+		for side := 0; side < 2; side++ {
+			for _, other := range []int{1, q} {
+				c := C10Case{QLen: q, QLenB: other, IDs: []uint32{7}}
+				if side == 1 {
+					c.QLen, c.QLenB = other, q
+				}
+				for _, fill := range []string{"full", "full-1", "half"} {
+					c.Bursts = append(c.Bursts, C10Burst{Side: side, Fill: fill, Size: 1 + n%5})
+				}
+				raw := ev.Snapshot(c)
+				rec.Journal(raw)
+				o := runC10(c)
+				rec.ClearJournal()
+				rec.Record(raw, o)
+				n++
+				if o.Fail != "" {
+					exhFailed.Store(true)
+					t.Fatalf("C10 (queue length sweep): %s\ncase: %s", o.Fail, raw)
+				}
+			}
+		}
+	}
+	rec.SetExtra("exhaustive_queue_lengths", fmt.Sprintf("bursts of qlen, qlen-1 and qlen/2 unread frames towards either end for qlen in {1, 2, 3, 255, 256, 257, 300, 512, 1024, 4096}: %d cases", n))
 }
